@@ -21,7 +21,7 @@ ID = "C18"
 MANIFEST = {
     "category": "exploration",
     "text": "Generated-input search (stage extract): condition and AHB expressions over key numbers 0..3000 with the borders 0/1/499/500/900/901/999/1000/1999/2000/2499/2500 over-weighted, at most one out-of-range key per expression, packages, time conditions; extract_categorized_keys must put every key into the list an independent range function names, list it once, keep condition keys ascending by number, reject the expression iff a key is out of range, satisfy extract(A op B) = extract(A) + extract(B) for every operator and for AHB concatenation, and with resolve_packages/replace_time_conditions equal the extract of the textually substituted expression. Stage enumeration is a complete enumeration over all (m, n) with m, n <= 5 (thorough: <= 6): the multiset of (requirement, format) maps from generate_possible_content_evaluation_results must equal the Cartesian product, each element exactly once, hints filled for every hint key. The enumeration grid also contains the cells with 7 (thorough: 8) requirement keys.",
-    "note": "Trusted: ref.key_category, ref.subst_*, the generators. (m, n) = (0, 0) is exempt (the code documents [] there). Key strings with leading zeros are distinct keys; ties in numeric order may appear in any order. Process configuration by shard (vlib/sut.py; recorded in replay files): plain / parse caches preheated beyond their size / warnings attributed to ahbicht raised as errors / logging fully enabled with every record rendered; one event loop per process or a new one per call; five process time zones; the hash seed is the shard number; namesakes of ahbicht's marshmallow schema classes are registered.",
+    "note": "Trusted: ref.key_category, ref.subst_*, the generators. (m, n) = (0, 0) is exempt (the code documents [] there). Key strings with leading zeros are distinct keys; ties in numeric order may appear in any order. Process configuration by shard (vlib/sut.py; recorded in replay files): plain / parse caches preheated beyond their size / warnings attributed to ahbicht raised as errors / logging fully enabled with every record rendered; one event loop per process or a new one per call; five process time zones; the hash seed is the shard number; namesakes of ahbicht's marshmallow schema classes are registered. Every registry of evaluators / providers / resolvers that the harness builds (sut.configure) also holds one of each kind that names no EDIFACT format and no format version; these must never be asked.",
     "technique": "property-based testing against an independent range function and algebraic (union) law; exhaustive enumeration of (m, n) for the Cartesian-product clause",
 }
 LEVEL = "exploration"
